@@ -46,12 +46,22 @@ LastSel == Suitable(last)
 RawSpan == last[LastSel] - first[FirstSel]
 Span == Clamp(RawSpan)
 
+\* Windows that hold next to no work: every block carries one unit of work (a target near 2^256, possible for
+\* headers from below the activation height, whose bits nobody checks).  The work between the endpoints is the
+\* number of blocks between them, and the projected work W * 600 / span floors to a few units - or to zero, where
+\* there is nothing to project and the required target is the cap (the proof-of-work limit).
+BlocksBetween == 144 + LastSel - FirstSel
+Projected1 == (BlocksBetween * Spacing) \div Span
+LowWorkCapped == Projected1 = 0
+
 \* sanity of the transcription: the selected block carries a median timestamp
 IsMedian(t, k) == /\ Cardinality({i \in 1..3 : t[i] < t[k]}) <= 1
                   /\ Cardinality({i \in 1..3 : t[i] > t[k]}) <= 1
 SelectsMedian == IsMedian(first, FirstSel) /\ IsMedian(last, LastSel)
 SpanInRange == Span >= MinSpan /\ Span <= MaxSpan
+\* one unit of work per block projects to 0, 1 or 2 units: all three occur in the domain
+ProjectedSmall == Projected1 \in 0..2
 \* the cases where a generic stable sort and an unsigned subtraction disagree with the rule exist in the domain
 EmitCase == ~done \/ PrintT(<<"CASE", ToJson([first |-> first, last |-> last, firstSel |-> FirstSel, lastSel |-> LastSel,
-                                                 raw |-> RawSpan, span |-> Span])>>)
+                                                 raw |-> RawSpan, span |-> Span, proj1 |-> Projected1])>>)
 ==============================================================================
